@@ -284,6 +284,20 @@ static int exec_op(jval *op)
 	if (!strcmp(a, "connect")) return do_connect();
 	if (!bev || !E[e].alive) return -99;
 	if (!strcmp(a, "write")) return do_write(e, (long)j_int(op, "n", 0));
+	if (!strcmp(a, "read")) {      /* the application reads outside a callback */
+		long long k = j_int(op, "n", 0);
+		size_t il = evbuffer_get_length(bufferevent_get_input(bev)), i, got;
+		size_t len = k >= 99 ? il : (size_t)(k * unit);
+		unsigned char *tmp;
+		if (len > il) len = il;
+		tmp = malloc(len ? len : 1);
+		got = bufferevent_read(bev, tmp, len);
+		for (i = 0; i < got; i++) if (tmp[i] != sbyte(far_of(e), E[e].rd + (long long)i)) E[e].bad++;
+		if (got != len) E[e].bad += 1000000;
+		E[e].rd += got;
+		free(tmp);
+		return 0;
+	}
 	if (!strcmp(a, "enable")) return bufferevent_enable(bev, (short)j_int(op, "m", 0));
 	if (!strcmp(a, "disable")) return bufferevent_disable(bev, (short)j_int(op, "m", 0));
 	if (!strcmp(a, "wm")) {
